@@ -73,11 +73,11 @@ theorem inv_user {s s' : Sh} {p : DPc} (inv : Inv s) (h : step s (.user p) = som
         · intro h; exact ifu (by ua)
         · intro _ ht; right; left; ua
       case d1 =>
-        cases hd
-        refine ⟨ia, ib, ic1, ic2, id, ?_, ier, ?_, ift, ?_⟩
-        · intro h; exact ieu (by ua)
-        · intro h; exact ifu (by ua)
-        · intro _ ht; right; left; ua
+        split at hd <;> cases hd <;>
+          (refine ⟨ia, ib, ic1, ic2, id, ?_, ier, ?_, ift, ?_⟩
+           · intro h; exact ieu (by ua)
+           · intro h; exact ifu (by ua)
+           · intro _ ht; right; left; ua)
       case d2 =>
         cases hd
         refine ⟨ia, ib, ic1, ic2, id, ?_, ier, ?_, ift, ?_⟩
@@ -159,11 +159,11 @@ theorem inv_user {s s' : Sh} {p : DPc} (inv : Inv s) (h : step s (.user p) = som
         refine ⟨ia, ib, ic1, ic2, id, fun _ => hdisc, ier, fun _ => hrd, ift, ?_⟩
         intro _ ht; have ht' : txInLoop s = true := ht; rw [loop_not_disc ht'] at hdisc; cases hdisc
       case d11 =>
-        cases hd
         have hdisc : txIsDisc s = true := ieu (by ua)
         have hrd : rxIsDisc s = true := ifu (by ua)
-        refine ⟨ia, ib, ic1, ic2, id, fun _ => hdisc, ier, fun _ => hrd, ift, ?_⟩
-        intro _ ht; have ht' : txInLoop s = true := ht; rw [loop_not_disc ht'] at hdisc; cases hdisc
+        split at hd <;> cases hd <;>
+          (refine ⟨ia, ib, ic1, ic2, id, fun _ => hdisc, ier, fun _ => hrd, ift, ?_⟩
+           intro _ ht; have ht' : txInLoop s = true := ht; rw [loop_not_disc ht'] at hdisc; cases hdisc)
       case fin => cases hd
     · cases h
   · cases h
@@ -238,9 +238,9 @@ theorem inv_tx_disc {s s' : Sh} {fail : Bool} {p : DPc} (inv : Inv s) (htx : s.t
       exact ⟨by simp [txIsDisc, hta], ib, by simp, ic2, by simp, fun _ => by simp [txIsDisc],
         fun _ _ _ => by simp [txIsDisc], ifu, by simp [lateRx], by simp [txInLoop]⟩
     case d1 =>
-      cases hd
-      exact ⟨by simp [txIsDisc, hta], ib, by simp, ic2, by simp, fun _ => by simp [txIsDisc],
-        fun _ _ _ => by simp [txIsDisc], ifu, by simp [lateRx], by simp [txInLoop]⟩
+      split at hd <;> cases hd <;>
+        exact ⟨by simp [txIsDisc, hta], ib, by simp, ic2, by simp, fun _ => by simp [txIsDisc],
+          fun _ _ _ => by simp [txIsDisc], ifu, by simp [lateRx], by simp [txInLoop]⟩
     case d2 =>
       cases hd
       exact ⟨by simp [txIsDisc, hta], ib, by simp, ic2, by simp, fun _ => by simp [txIsDisc],
@@ -291,10 +291,10 @@ theorem inv_tx_disc {s s' : Sh} {fail : Bool} {p : DPc} (inv : Inv s) (htx : s.t
       exact ⟨by simp [txIsDisc, hta], ib, by simp, ic2, by simp, fun _ => by simp [txIsDisc],
         fun _ _ _ => by simp [txIsDisc], ifu, fun _ _ _ => hrd, by simp [txInLoop]⟩
     case d11 =>
-      cases hd
       have hrd : rxIsDisc s = true := ift _ htx rfl
-      exact ⟨by simp [txIsDisc, hta], ib, by simp, ic2, by simp, fun _ => by simp [txIsDisc],
-        fun _ _ _ => by simp [txIsDisc], ifu, fun _ _ _ => hrd, by simp [txInLoop]⟩
+      split at hd <;> cases hd <;>
+        exact ⟨by simp [txIsDisc, hta], ib, by simp, ic2, by simp, fun _ => by simp [txIsDisc],
+          fun _ _ _ => by simp [txIsDisc], ifu, fun _ _ _ => hrd, by simp [txInLoop]⟩
     case fin => cases hd
   · cases h
 
@@ -382,9 +382,9 @@ theorem inv_rx_disc {s s' : Sh} {closed : Bool} {p : DPc} (inv : Inv s) (hrx : s
       exact ⟨ia, by simp [rxIsDisc, hra], ic1, by simp, by simp, ieu, by simp [lateTx], fun _ => by simp [rxIsDisc],
         fun _ _ _ => by simp [rxIsDisc], fun _ _ => Or.inr (Or.inr (by simp [rxPre, preMarker]))⟩
     case d1 =>
-      cases hd
-      exact ⟨ia, by simp [rxIsDisc, hra], ic1, by simp, by simp, ieu, by simp [lateTx], fun _ => by simp [rxIsDisc],
-        fun _ _ _ => by simp [rxIsDisc], fun _ _ => Or.inr (Or.inr (by simp [rxPre, preMarker]))⟩
+      split at hd <;> cases hd <;>
+        exact ⟨ia, by simp [rxIsDisc, hra], ic1, by simp, by simp, ieu, by simp [lateTx], fun _ => by simp [rxIsDisc],
+          fun _ _ _ => by simp [rxIsDisc], fun _ _ => Or.inr (Or.inr (by simp [rxPre, preMarker]))⟩
     case d2 =>
       cases hd
       exact ⟨ia, by simp [rxIsDisc, hra], ic1, by simp, by simp, ieu, by simp [lateTx], fun _ => by simp [rxIsDisc],
@@ -442,10 +442,10 @@ theorem inv_rx_disc {s s' : Sh} {closed : Bool} {p : DPc} (inv : Inv s) (hrx : s
       exact ⟨ia, by simp [rxIsDisc, hra], ic1, by simp, by simp, ieu, fun _ _ _ => hdisc, fun _ => by simp [rxIsDisc],
         fun _ _ _ => by simp [rxIsDisc], jdisc rfl hdisc⟩
     case d11 =>
-      cases hd
       have hdisc : txIsDisc s = true := ier _ hrx rfl
-      exact ⟨ia, by simp [rxIsDisc, hra], ic1, by simp, by simp, ieu, fun _ _ _ => hdisc, fun _ => by simp [rxIsDisc],
-        fun _ _ _ => by simp [rxIsDisc], jdisc rfl hdisc⟩
+      split at hd <;> cases hd <;>
+        exact ⟨ia, by simp [rxIsDisc, hra], ic1, by simp, by simp, ieu, fun _ _ _ => hdisc, fun _ => by simp [rxIsDisc],
+          fun _ _ _ => by simp [rxIsDisc], jdisc rfl hdisc⟩
     case fin => cases hd
   · cases h
 
@@ -504,6 +504,8 @@ theorem rx_moves {s : Sh} (inv : Inv s) (hnd : s.rx ≠ .disc .fin) (h5 : s.rx =
     have c2 := inv.c2
     rw [hrx] at c2 hnd
     cases p <;> simp only [dstep] <;> (try simp) <;> (try (simp at hnd)) <;> (try (simp at c2))
+    case d1 => cases s.txq <;> simp
+    case d11 => cases s.txq <;> simp
     case d5 => simp [h5 hrx]
 
 theorem tx_moves {s : Sh} (inv : Inv s) (hnd : s.tx ≠ .disc .fin) (hq : s.tx = .get → s.txq ≠ [])
@@ -522,12 +524,16 @@ theorem tx_moves {s : Sh} (inv : Inv s) (hnd : s.tx ≠ .disc .fin) (hq : s.tx =
     have c1 := inv.c1
     rw [htx] at c1 hnd
     cases p <;> simp only [dstep] <;> (try simp) <;> (try (simp at hnd)) <;> (try (simp at c1))
+    case d1 => cases s.txq <;> simp
+    case d11 => cases s.txq <;> simp
     case d8 => simp [h8 htx]
 
 theorem user_moves {s : Sh} {p : DPc} (hpos : 0 < s.users p) (hp : p ≠ .fin) (h5 : p = .d5 → txDone s = true)
     (h8 : p = .d8 → rxDone s = true) : (step s (.user p)).isSome = true := by
   simp only [step, hpos, if_true]
   cases p <;> simp only [dstep] <;> (try simp)
+  case d1 => cases s.txq <;> simp
+  case d11 => cases s.txq <;> simp
   case d5 => simp [h5 rfl]
   case d8 => simp [h8 rfl]
   case fin => exact absurd rfl hp
